@@ -106,7 +106,7 @@ func runConc(o Opts) error {
 	w.Samples = []interface{}{} // never `null` in stats.json, also when every scenario fails its oracle
 	defer w.Close()
 	rng := rand.New(rand.NewSource(o.Seed))
-	nRace, nTrace, nPip, nLife := 6, 5, 4, 3
+	nRace, nTrace, nPip, nLife := 6, 5, 4, 2
 	if o.Thorough() {
 		nRace, nTrace, nPip, nLife = 100, 50, 50, 40
 	}
@@ -167,8 +167,8 @@ func runConc(o Opts) error {
 		// reader acquisition against frequent root replacement: an OPEN reader must never contain
 		// a segment whose handle has been released (reference hand-off of the root)
 		sc := mk("lifetime")
-		sc.Unsafe, sc.Batchers, sc.Batches, sc.DocsPer = true, 2, 40+rng.Intn(40), 1
-		sc.Searchers, sc.Shared, sc.Acquirers, sc.HoldReader = 1, 2, 16, false
+		sc.Unsafe, sc.Batchers, sc.Batches, sc.DocsPer = true, 2, 30+rng.Intn(20), 1
+		sc.Searchers, sc.Shared, sc.Acquirers, sc.HoldReader = 1, 2, 12, false
 		sc.NapMS, sc.NapUnder, sc.SmallMerge = 0, 1000, true
 		sc.Perturb = 20 + rng.Intn(60)
 		scs = append(scs, sc)
@@ -428,8 +428,18 @@ type concEnv struct {
 }
 
 func (e *concEnv) problem(s string) {
+	key := s
+	if j := strings.Index(s, ":"); j > 0 {
+		key = s[:j]
+	}
 	e.probMu.Lock()
-	if len(e.problems) < 20 {
+	n := 0
+	for _, p := range e.problems {
+		if strings.HasPrefix(p, key+":") {
+			n++
+		}
+	}
+	if n < 2 && len(e.problems) < 20 { // at most two reports per kind of problem
 		e.problems = append(e.problems, s)
 	}
 	e.probMu.Unlock()
@@ -1029,6 +1039,10 @@ func concChild(scFile string) error {
 				}
 				atomic.AddInt64(&lifeChecks, 1)
 				_ = snap.Close()
+				runtime.Gosched() // let the batching goroutines and the loops run
+				if n%64 == 63 {
+					time.Sleep(50 * time.Microsecond)
+				}
 			}
 		}(a)
 	}
